@@ -636,17 +636,30 @@ theorem C11_shared_token_list_fixed :
 
 /-! ### revocation
 
-`changePermissionsAction` edits the connection's list with `removeS`/`addnewS`
+`changePermissionsAction` edits the connection's list with `removeS` (`removeAllS` since the
+repair `removeAll`, `removeFix`)/`addnewS`
 (Model/SigValue.lean, the transcription of webclient.go's `remove`/`addnew` on
 slices with shared backing arrays).  Lemmas/SigHeap.lean proves what the
 connection itself sees afterwards, for every heap and every well-formed slice;
 `handle` reads nothing but that list (`Conn.perms`), so the connection's next
 message is judged by the new set (`C11_guard`). -/
 
-/-- **C11_revocation (removal).**  After `unop`/`unpresent`/`shutup` the
-connection's list is the old one without the permission. -/
+/-- **C11_revocation (removal, one step of `remove`; the whole edit before the repair `removeAll`).**
+After `unop`/`unpresent`/`shutup` the connection's list is the old one without the first occurrence
+of the permission. -/
 theorem C11_revocation_remove (h : Heap) (s : Slice) (v : String) (hw : h.WF s) :
     (removeS h s v).1.get (removeS h s v).2 = (h.get s).erase v := removeS_get h s v hw
+
+/-- **C11_revocation (removal, repaired `remove`, 391656f).**  Since the repair `removeAll` the edit is
+`removeAllS` (the old step iterated): afterwards the connection's list is the old one without **any**
+occurrence of the permission. -/
+theorem C11_revocation_remove_all (h : Heap) (s : Slice) (v : String) (hw : h.WF s) :
+    (removeAllS h s v).1.get (removeAllS h s v).2 = (h.get s).filter (· ≠ v) ∧
+      v ∉ (removeAllS h s v).1.get (removeAllS h s v).2 := by
+  refine ⟨removeAllS_get h s v hw, ?_⟩
+  rw [removeAllS_get h s v hw]
+  intro hm
+  simpa using (List.mem_filter.mp hm).2
 
 /-- **C11_revocation (grant).**  After `op`/`present`/`unshutup` the list is the
 old one with the permission appended unless present. -/
@@ -657,8 +670,9 @@ theorem C11_revocation_add (h : Heap) (s : Slice) (v : String) (hw : h.WF s) :
 not changed by either edit.  (For a list in the *same* array this is false:
 `addnewS_shared_example`, `C11_shared_token_list_false`.) -/
 theorem C11_revocation_frame (h : Heap) (s s' : Slice) (v : String) (hne : s'.arr ≠ s.arr) (hin : s'.arr < h.length) :
-    (removeS h s v).1.get s' = h.get s' ∧ (addnewS h s v).1.get s' = h.get s' :=
-  ⟨removeS_frame h s s' v hne, addnewS_frame h s s' v hne hin⟩
+    (removeS h s v).1.get s' = h.get s' ∧ (addnewS h s v).1.get s' = h.get s' ∧
+      (removeAllS h s v).1.get s' = h.get s' :=
+  ⟨removeS_frame h s s' v hne, addnewS_frame h s s' v hne hin, removeAllS_frame h s s' v hne⟩
 
 /-- a member that handles the loss of `present` is sent `abort` for its stream
 and every other member is told to close it (concrete run; the general statement
